@@ -162,6 +162,8 @@ Lemma finalize_with_sink w v m fs fin bw s :
   if fin then (with_sink w fin bw s, FinErr (FinIo IoOther))
   else if (U16MAX <? vt_width v) || (U16MAX <? vt_height v)
        then (with_sink w fin bw s, FinErr (FinIo IoInvalidInput))
+       else if param_sets_too_long (w_vconfig w)
+       then (with_sink w fin bw s, FinErr (FinIo IoInvalidInput))
        else fin_tail w (snd (plan_of w v m fs)) (run_plan (fst (plan_of w v m fs)) bw s).
 Proof.
   rewrite <- (plan_independent_of_sink w fin bw s v m fs).
@@ -169,12 +171,36 @@ Proof.
   replace (w_finalized (with_sink w fin bw s)) with fin by reflexivity.
   destruct fin; [reflexivity|].
   destruct (_ || _); [reflexivity|].
+  replace (w_vconfig (with_sink w false bw s)) with (w_vconfig w) by reflexivity.
+  destruct (param_sets_too_long (w_vconfig w)); [reflexivity|].
   replace (w_bytes_written (with_sink w false bw s)) with bw by reflexivity.
   replace (w_sink (with_sink w false bw s)) with s by reflexivity.
   match goal with |- context [if fs then ?a else ?b] => destruct (if fs then a else b) as [bufs term] end.
   cbn [fst snd].
   destruct (run_plan bufs bw s) as [[bw' s'] e].
   destruct w as [cd vr vp vl vc au ar ap al fi bwr sk]; reflexivity.
+Qed.
+
+(* since the fix "finish returns an error for parameter sets that do not fit avcC/hvcC's 16-bit length
+   fields": a successful finalisation implies that every stored parameter set is shorter than 65536 bytes *)
+Lemma finalize_ok_params_fit w v m fs w' :
+  finalize w v m fs = (w', FinOk) -> param_sets_too_long (w_vconfig w) = false.
+Proof.
+  unfold finalize. intros H.
+  destruct (w_finalized w); [discriminate|].
+  destruct (_ || _); [discriminate|].
+  destruct (param_sets_too_long (w_vconfig w)); [discriminate|reflexivity].
+Qed.
+
+Lemma finalize_vconfig w v m fs : w_vconfig (fst (finalize w v m fs)) = w_vconfig w.
+Proof.
+  unfold finalize.
+  destruct (w_finalized w); [reflexivity|].
+  destruct (_ || _); [reflexivity|].
+  destruct (param_sets_too_long (w_vconfig w)); [reflexivity|].
+  match goal with |- context [if fs then ?a else ?b] => destruct (if fs then a else b) as [bufs term] end.
+  destruct (run_plan bufs (w_bytes_written w) (w_sink w)) as [[bw' s'] e].
+  destruct e; [|destruct term]; reflexivity.
 Qed.
 
 Lemma fin_tail_sink w term bw s e : w_sink (fst (fin_tail w term (bw, s, e))) = s.
@@ -195,6 +221,8 @@ Proof.
   destruct (w_finalized w).
   { exists []. rewrite app_nil_r. reflexivity. }
   destruct (_ || _).
+  { exists []. rewrite app_nil_r. reflexivity. }
+  destruct (param_sets_too_long (w_vconfig w)).
   { exists []. rewrite app_nil_r. reflexivity. }
   set (bufs := fst (plan_of w v m fs)). set (term := snd (plan_of w v m fs)).
   set (sc := {| sk_rev_chunks := chunks; sk_script := [] |}).
@@ -220,6 +248,8 @@ Proof.
   destruct (w_finalized w).
   { repeat split; reflexivity. }
   destruct (_ || _).
+  { repeat split; reflexivity. }
+  destruct (param_sets_too_long (w_vconfig w)).
   { repeat split; reflexivity. }
   set (bufs := fst (plan_of w v m fs)). set (term := snd (plan_of w v m fs)).
   set (sc := {| sk_rev_chunks := chunks; sk_script := [] |}).
